@@ -148,6 +148,12 @@ func genBody(r *rand.Rand, quals []string, rv string, params []Field, results []
 			body = append(body, Stmt{K: "call", Q: q, Name: name, Args: genArgs(r, vars)})
 			if r.Intn(6) == 0 { // the same call written twice
 				body = append(body, body[len(body)-1])
+			} else if r.Intn(6) == 0 { // a call statement inside a func literal passed to this call statement
+				q2 := qs[r.Intn(len(qs))]
+				inner := Stmt{K: "call", Q: q2, Name: goCallNames[r.Intn(len(goCallNames))], Args: genArgs(r, vars), Lit: true}
+				outer := &body[len(body)-1]
+				outer.Args = append(append([]string{}, outer.Args...), "func() { "+callText(inner)+" }")
+				body = append(body, inner)
 			}
 		}
 	}
